@@ -254,7 +254,7 @@ def shrink(ctx, transcript, hid, kind, features=None, budget=400, predicate=None
     return lines, text, len(ops)
 
 
-def shrink_groups(ctx, mism, max_groups=6, budget=300):
+def shrink_groups(ctx, mism, max_groups=6, budget=int(os.environ.get("VERIF_SHRINK_BUDGET", "300"))):
     """One shrunk representative per mismatch kind (the one from the shortest history position).
     Returns {kind: (text, replay_lines)}."""
     groups = {}
